@@ -6,6 +6,7 @@ import PdshVerif.Exec.Spec
 import PdshVerif.Exec.XrcmdSpec
 import PdshVerif.Opt.Rcmd
 import PdshVerif.Opt.RcmdSpec
+import PdshVerif.Opt.RcmdUser
 import PdshVerif.Gen.Modopt
 import PdshVerif.Opt.Exclude
 import PdshVerif.Hostlist.Probed
@@ -105,7 +106,7 @@ def regModel (re : Bool) (toks : List String) : String :=
   match parseReg toks emptyCase with
   | none => "bad-op"
   | some c =>
-    match (if re then Opt.Rcmd.runRe c.cfg c.words c.targets else Opt.Rcmd.run c.cfg c.words c.targets) with
+    match Opt.Rcmd.runChecked (some Gen.MO_LOGIN_NAME_MAX) re c.cfg c.words c.targets with
     | .fatal => "fatal"
     | .lines ls => showLines ls
 
@@ -158,7 +159,7 @@ def regCli (toks : List String) : String :=
     | some words =>
       match Opt.Exclude.cliFinal hcfg xenv c.evs with
       | .ok targets =>
-        match Opt.Rcmd.run c.cfg words targets with
+        match Opt.Rcmd.runChecked (some Gen.MO_LOGIN_NAME_MAX) false c.cfg words targets with
         | .fatal => "fatal"
         | .lines ls => showLines ls
       | .nohosts => "fatal"
@@ -178,6 +179,7 @@ def regSpec (toks : List String) : String :=
     let dfl := Opt.Rcmd.Spec.defaultType c.cfg
     let ls := Opt.Rcmd.Spec.expectedLines c.cfg c.words c.targets
     if !wordsOk then "nodomain"
+    else if Opt.Rcmd.userTooLong Gen.MO_LOGIN_NAME_MAX c.cfg c.words then "nodomain"
     else if (match dfl with | some d => !c.cfg.loaded.contains d | none => false) then "nodomain"
     else if ls.any (·.rtype.isNone) then "nodomain"
     else showLines ls
